@@ -30,7 +30,7 @@ Own (non-independent) single-edit mutants from the list in §7a, applied with a 
 quick checks: C02 (length prefix from prefix_length; 59-bit position mask), C03 (no -3 for later fragments), C04
 (off-by-one in the completeness test), C06 (async_range(n+1)), C07 (stream requester not finishing on
 complete-only), C08 (initial request-n 0 accepted), C09 (responder ignores CANCEL), C10 (finish_stream without
-cache removal - missed at first, see 9.6), C13 (% instead of &; attempt bound; missing availability check), C14
+cache removal - missed at first, see 9.6), C13 (modulo instead of mask; attempt bound; missing availability check), C14
 (lease counter off by one), C15 (>= in the time-out test), C16 (wrong error code), C18 (tag limit 256; MIME limit;
 6-bit id mask), header lemma (2-bit flag mask reduced to 1 bit).
 ''' % (len(rows), len([r for r in rows if 'caught as committed' in r]), len([r for r in rows if 'missed' in r]), '\n'.join(table))
